@@ -841,6 +841,23 @@ func (s *SpecValidator) expandedAnalyzer() *analysis.Spec {
 	return s.analyzer
 }
 
+// canValidateAgainst tells if a schema validator may be built for this schema.
+//
+// When some references of the document do not resolve (this has been reported by validateReferencesValid
+// and only matters when continuing on errors), building a validator on such a reference panics: the
+// default and example values of these schemas cannot be checked.
+func (s *SpecValidator) canValidateAgainst(schema *spec.Schema) bool {
+	if s.expanded != nil {
+		return true // all references resolve
+	}
+	probe, err := deepCloneSchema(*schema)
+	if err != nil {
+		return false
+	}
+
+	return spec.ExpandSchema(&probe, s.spec.Spec(), nil) == nil
+}
+
 func deepCloneSchema(src spec.Schema) (spec.Schema, error) {
 	var b bytes.Buffer
 	if err := gob.NewEncoder(&b).Encode(src); err != nil {
